@@ -15,7 +15,7 @@ from . import build as B
 from . import verus as V
 
 HERE = os.path.dirname(os.path.dirname(os.path.abspath(__file__)))
-BUILD = os.path.join(HERE, "build")
+BUILD = os.path.join(os.environ.get("VERIF_OUT", HERE), "build")
 
 GLOBAL_ASSUMPTIONS = [
     "composition across threads is a paper argument (DESIGN.md §6): Verus checks each function against its callees' contracts under a sequential semantics",
